@@ -236,6 +236,43 @@ func C14(c *core.Ctx) {
 			nt++
 		}
 	}
+	// (V) byte-level mutations of a valid journal through every command: clean behaviour only
+	type mut struct {
+		text string
+		argv []string
+		rep  bool
+	}
+	mrng := rand.New(rand.NewSource(c.Seed + 5))
+	nm := c.Pick(400, 6000)
+	muts := make([]mut, nm)
+	cmdPool := []struct {
+		argv []string
+		rep  bool
+	}{{[]string{"check"}, false}, {[]string{"check", "--write"}, true}, {[]string{"balance", "--color=false"}, true}, {[]string{"balance", "--color=false", "-v", "CHF", "--months"}, true},
+		{[]string{"print"}, true}, {[]string{"format"}, false}, {[]string{"transcode", "-v", "CHF"}, true}, {[]string{"portfolio", "returns", "-v", "CHF", "--months"}, false},
+		{[]string{"portfolio", "weights", "-v", "CHF", "--color=false"}, false}, {[]string{"balance", "--color=false", "--weeks", "--last", "2", "--diff"}, true}}
+	for k := range muts {
+		cp := cmdPool[mrng.Intn(len(cmdPool))]
+		muts[k] = mut{text: mutate(mrng, c14Base+"\n@accrue monthly 2020-01-01 2020-06-30 Assets:Portfolio\n2020-02-15 \"insurance\"\nAssets:Bank Expenses:Food 120 CHF\n"), argv: cp.argv, rep: cp.rep}
+	}
+	mcases := make([]map[string]any, nm)
+	core.Parallel(nm, func(k int) {
+		dir := filepath.Join(root, fmt.Sprintf("m%d", k))
+		os.MkdirAll(dir, 0o755)
+		defer os.RemoveAll(dir)
+		os.WriteFile(filepath.Join(dir, "main.knut"), []byte(muts[k].text), 0o644)
+		full := append(append([]string{"--as=6442450944", "--nproc=2000", bin}, muts[k].argv...), "main.knut")
+		r := core.Run(core.RunOpts{Dir: dir, Timeout: 20 * time.Second, Env: []string{"GOMAXPROCS=4"}}, "prlimit", full...)
+		oom := strings.Contains(r.Stderr, "out of memory") || strings.Contains(r.Stderr, "pthread_create failed") || strings.Contains(r.Stderr, "cannot allocate memory")
+		pan := !oom && (strings.Contains(r.Stderr, "panic:") || strings.Contains(r.Stderr, "goroutine ") || strings.Contains(r.Stderr, "fatal error:"))
+		mcases[k] = map[string]any{"id": 7000000 + k, "mustFail": false, "report": muts[k].rep, "exit": r.Exit, "timedOut": r.TimedOut, "panicked": pan, "oom": oom,
+			"stdoutEmpty": r.Stdout == "", "stderrEmpty": strings.TrimSpace(r.Stderr) == "", "argv": strings.Join(muts[k].argv, " "), "text": muts[k].text, "stderr": tailStr(r.Stderr, 1500), "stdout": tailStr(r.Stdout, 400)}
+	})
+	c.Add("evaluations", nm)
+	c.Add("mutated_journals", nm)
+	c.JudgeAndReport("Trace_Command", "Trace_Command.cfg", mcases, 8, nil, func(cs map[string]any) (string, string) {
+		return fmt.Sprintf("clean-mutation:%v", cs["why"]), fmt.Sprintf("knut %v on a mutated journal: %v (exit %v)\nstderr:\n%v\nstdout:\n%v\n--- journal\n%q", cs["argv"], cs["why"], cs["exit"], cs["stderr"], cs["stdout"], cs["text"])
+	})
 	c.Add("evaluations", len(cases))
 	c.Add("distinct_nontrivial", nt)
 	c.Sample(map[string]any{"scenario": cases[0]["scenario"], "argv": cases[0]["argv"], "exit": cases[0]["exit"], "stderr": cases[0]["stderr"]})
